@@ -12,3 +12,4 @@ import MiniconfVerif.Props.C02
 #print axioms MiniconfVerif.C02.source_containers_are_model
 #print axioms MiniconfVerif.C02.source_derive_is_model
 #print axioms MiniconfVerif.C02.source_leaves_are_model
+#print axioms MiniconfVerif.C02.source_wrappers_are_model
